@@ -208,8 +208,8 @@ func decIntrinsics(in *interp, notOne bool) {
 // specification helpers
 
 type specEnv struct {
-	p     *Prog
-	consts map[string]int64
+	p       *Prog
+	consts  map[string]int64
 	missing []string
 }
 
